@@ -37,10 +37,10 @@ theorem foldG_first : ∀ (ws : List (Val D)) (b : Option (Val D)),
     element's value — never a later or a stale one — and nothing is thrown;
   * if the sequence is empty after its filters, the code fails loudly (`Fault.loud`), it never
     continues with a default or previous value. -/
-theorem first_idiom (C : Ctx D) (QC : QCtx D) (hN : QC.N = C.N)
-    (B : Backend) (hB : BackendOK B) (nm : Nat → String)
+theorem first_idiom_tok (C : Ctx D) (QC : QCtx D) (hN : QC.N = C.N)
+    (B : Backend) (hB : BackendBase B) (nm : Nat → String)
     (hinj : ∀ i j, nm i = nm j → i = j) (hres : ∀ j, nm j ≠ "result")
-    (c : Chain) (n : Nat) (col : String) (hcol : ∀ j, col ≠ nm j) (hcolr : col ≠ "result") (msg : String)
+    (c : Chain) (n : Nat) (htok : TokChain B nm C c (n + 1)) (col : String) (hcol : ∀ j, col ≠ nm j) (hcolr : col ≠ "result") (msg : String)
     (cty : String) (l ws : List (Val D))
     (hcoll : B.collType c.coll = some cty) (hfind : C.ev.find c.bank = some (cty, .vec l))
     (hwt : wtSteps none c.steps = true) (hmt : ∀ v ∈ l, MethTyped v (methsSteps c.steps))
@@ -71,7 +71,7 @@ theorem first_idiom (C : Ctx D) (QC : QCtx D) (hN : QC.N = C.N)
     intro x hx'
     have := (stepConds_vars B.elemPtr c.steps (.var (nm (n + 1 + 1))) none).2 x hx'
     simpa [vars] using this
-  obtain ⟨s', hex, hP'⟩ := compChain_correct (β := Option (Val D)) C QC hN B hB nm hinj hres c (n + 1) K cty l ws
+  obtain ⟨s', hex, hP'⟩ := compChain_correct_tok (β := Option (Val D)) C QC hN B hB nm hinj hres c (n + 1) htok K cty l ws
     hcoll hfind hwt hmt Pinv
     (fun b w => .ok (match b with | none => some w | some w0 => some w0)) (fun _ => True) (fun _ _ => trivial)
     (by
@@ -144,5 +144,24 @@ theorem first_idiom (C : Ctx D) (QC : QCtx D) (hN : QC.N = C.N)
     simp only [execs]
     rw [hite]
     simp [execs]
+
+/-- **first idiom** on a backend that retrieves by bank name (the statement `C04.first_idiom` wraps). -/
+theorem first_idiom (C : Ctx D) (QC : QCtx D) (hN : QC.N = C.N)
+    (B : Backend) (hB : BackendOK B) (nm : Nat → String)
+    (hinj : ∀ i j, nm i = nm j → i = j) (hres : ∀ j, nm j ≠ "result")
+    (c : Chain) (n : Nat) (col : String) (hcol : ∀ j, col ≠ nm j) (hcolr : col ≠ "result") (msg : String)
+    (cty : String) (l ws : List (Val D))
+    (hcoll : B.collType c.coll = some cty) (hfind : C.ev.find c.bank = some (cty, .vec l))
+    (hwt : wtSteps none c.steps = true) (hmt : ∀ v ∈ l, MethTyped v (methsSteps c.steps))
+    (hel : elemsSem QC c.steps l = .ok ws)
+    (s : St D) (hx : (s.env (nm (n + 1))).isSome = true)
+    (hfl : s.env (nm n) = some (.val (.bool true))) (hcd : (s.env col).isSome = true) :
+    let K : CExpr → Option Ty → List Stmt := fun cur _ => [.ite (.var (nm n)) [.set (nm n) (.bool false), .set col cur] []]
+    let prog := (compChain B nm c (n + 1) K).stmts ++ [.ite (.var (nm n)) [.throw msg] []]
+    (ws = [] → execs C prog s = .error (.loud msg)) ∧
+    (∀ w rest, ws = w :: rest → ∃ s', execs C prog s = .ok s' ∧ s'.env col = some (.val w) ∧ s'.rows = s.rows ∧
+        (∀ y, y ≠ col → ¬ Touch nm n (compChain B nm c (n + 1) K).next y → s'.env y = s.env y)) :=
+  first_idiom_tok C QC hN B hB.base nm hinj hres c n (tokChain_of_notToken hB.notToken nm C c _) col hcol hcolr msg cty l ws
+    hcoll hfind hwt hmt hel s hx hfl hcd
 
 end FaxVerif.Gen
